@@ -52,6 +52,9 @@ SEAL_GUARD_APPEND = "if base.treats_as_sealed(self):\n        raise base.WritePe
 
 VARIANTS = {
     'C01': [
+        fire('relocate-parentless-not-cloned', B, 'Symbolic._relocate_if_symbolic', 'elif value.sym_parent is None and self._sym_parent_for_children() is None and value.sym_path and (root_path != value.sym_path):\n            value = value.clone()', 'else:\n            pass', 'C01.b', 'unattached-container'),
+        fire('reset-adopts-schema-default', D, 'Dict._formalized_value', 'value = copy.deepcopy(field.default_value)', 'value = field.default_value', 'C01.h', 'Dict._formalized_value'),
+        fire('apply-adopts-schema-default', CS, 'Schema.apply', 'value = copy.deepcopy(field.default_value)', 'value = field.default_value', 'C01.h', 'Schema.apply'),
         fire('negative-index-not-normalised', L, 'List._set_item_without_permission_check', 'if index < 0:\n            index += len(self)', 'pass', 'C01.g', '#position'),
         fire('validate-after-detach-list', L, 'List._set_item_without_permission_check', 'new_value = self._formalized_value(index, value)\n    if index < len(self):', 'if isinstance(old_value, base.TopologyAware):\n        old_value.sym_setparent(None)\n    new_value = self._formalized_value(index, value)\n    if index < len(self):', 'C01.e', 'List._set_item_without_permission_check'),
         fire('reindex-only-when-notifying', L, 'List._remove_item_without_permission_check', 'self._update_children_index()', 'if flags.is_change_notification_enabled():\n        self._update_children_index()', 'C01.c', '_remove_item_without_permission_check'),
@@ -200,6 +203,8 @@ VARIANTS = {
                more=[('and update:', 'and upd:'), ('[update]', '[upd]')]),
     ],
     'C09': [
+        fire('append-no-cache-reset-when-silent', L, 'List.append', 'else:\n        self._sym_reset_content_caches()', 'else:\n        pass', 'C09.i', 'List.append#cache-reset'),
+        fire('rebind-skip-no-cache-reset', B, 'Symbolic.sym_rebind', 'else:\n        self._sym_reset_content_caches(updates)', 'else:\n        pass', 'C09.i', 'sym_rebind#cache-reset'),
         fire('subscription-memoised', 'pyglove/core/symbolic/object.py', 'Object._subscribes_field_updates', 'return self._on_change.__code__ is not Object._on_change.__code__', 'cls = self.__class__\n    if cls._SUBSCRIBES is None:\n        cls._SUBSCRIBES = cls._on_change.__code__ is not Object._on_change.__code__\n    return cls._SUBSCRIBES', 'C09.g', 'Object._subscribes_field_updates'),
         fire('append-without-notify', L, 'List.append', 'self._notify_field_updates([update])', 'pass', 'C09.a', 'List.append'),
         fire('memo-not-reset', B, 'Symbolic._notify_field_updates', "target._set_raw_attr('_sym_missing_values', None)", 'pass',
@@ -217,6 +222,8 @@ VARIANTS = {
                more=[('and update:', 'and upd:'), ('[update]', '[upd]')]),
     ],
     'C10': [
+        fire('query-one-sided-range', VL, 'KeyPath._query', 'if -len(src) <= key < len(src):', 'if key < len(src):', 'C10.g', 'position-range'),
+        fire('query-int-key-by-position-in-mapping', VL, 'KeyPath._query', 'if isinstance(key, int) and (not isinstance(src, collections.abc.Mapping)):', 'if isinstance(key, int):', 'C10.g', 'mapping-int-key'),
         fire('from-value-parses-int', VL, 'KeyPath.from_value', 'elif isinstance(value, int):\n        value = cls(value)', 'elif isinstance(value, int):\n        value = cls.parse(str(value))', 'C10.c', 'from_value'),
         fire('quote-chars-differ', VL, 'KeyPath._has_special_chars', "['[', ']', '.']", "['[', ']']", 'C10.a', 'KeyPath.parse'),
         fire('second-path-formatter', VL, 'KeyPath.__init__', 'self._path_str = None', "self._path_str = None if parent is None else str(parent) + '.x'", 'C10.d', 'KeyPath#_path_str'),
@@ -313,6 +320,8 @@ VARIANTS = {
         silent('rename-key-constant-usage', TL, 'thread_local_value_scope', 'previous_value', 'prev', count=0),
     ],
     'C18': [
+        fire('functor-json-writes-defaults', FU, 'Functor.sym_jsonify', 'if name not in self._specified_args:', 'if False:', 'C18.m', 'serialized-arguments'),
+        fire('call-duplicate-keyword-wins', FU, 'Functor._parse_call_time_overrides', 'if arg_name in positional_arg_names:', 'if arg_name in positional_arg_names and False:', 'C18.m', 'multiple-values'),
         fire('keyword-stored-only-when-type-checking', FU, 'Functor._parse_call_time_overrides', 'if arg_spec:\n        if flags.is_type_check_enabled():\n          arg_value = arg_spec.apply(arg_value, root_path=self.sym_path + arg_name)\n        keyword_args[arg_name] = arg_value', 'if arg_spec and flags.is_type_check_enabled():\n        arg_value = arg_spec.apply(arg_value, root_path=self.sym_path + arg_name)\n        keyword_args[arg_name] = arg_value', 'C18.l', 'typecheck-flag'),
         fire('delattr-bookkeeping-first', FU, 'Functor.__delattr__', 'del self._sym_attributes[name]', 'self._specified_args.discard(name)\n    del self._sym_attributes[name]', 'C18.k', '__delattr__'),
         fire('functor-raw-arg-read', FU, 'Functor._parse_call_time_overrides', 'k: self.sym_inferred(k) for k in self._sym_attributes.keys()', 'k: v for k, v in self._sym_attributes.items()', 'C18.j', '_parse_call_time_overrides'),
